@@ -14,6 +14,7 @@ import Driver.C13
 import Driver.C11
 import Driver.C04
 import Driver.C19
+import Driver.C17
 open Driver
 
 def handle (line : String) : String :=
@@ -37,6 +38,7 @@ def handle (line : String) : String :=
   | "c11" :: args => c11 args
   | "c11s" :: args => c11s args
   | "c04" :: args => c04 args
+  | "c17" :: args => c17 args
   | "c19" :: args => c19 args
   | "c19e" :: args => c19e args
   | "c19x" :: _ => "spec=-"
